@@ -34,4 +34,5 @@ def main(tier):
     chk.run("R-SKIPLOSS", T.skiploss, r, s, cx.sites, modules=("symbol_resolver.py",), floor=1)
     chk.run("R-TRAVPARAM", T.travparam, r, s, sr_sites, floor=30, control=lambda: T.control_travparam(r))
     chk.run("R-SCOPECHAIN", RR.scopechain, r, floor=2)
+    chk.run("R-REFHEAD", RR.refhead, cx.repo, floor=1)
     return chk.finish()
